@@ -125,3 +125,15 @@ PROPS["C08"] = {
     "outside": "sequences of several commands; symbolic secrets (a concrete pair of different shape is used); arguments longer than 8 characters",
     "assumptions": ["environment shims"],
 }
+
+PROPS["C06"] = {
+    "level": "model_checking",
+    "harnesses": [
+        {"name": "c06_history", "params": {"quick": {"ops": 4, "prefix": 0}, "thorough": {"ops": 5, "prefix": 0}}, "covers": ["snapshot.done"], "budget_s": {"quick": 900, "thorough": 7200}},
+        {"name": "c06_history_persisted", "fn": "c06_history", "params": {"quick": {"ops": 4, "prefix": 1}, "thorough": {"ops": 5, "prefix": 1}}, "covers": ["snapshot.done"], "budget_s": {"quick": 900, "thorough": 7200}},
+    ],
+    "bounds": {"quick": "all histories of 4 operations over {set k0 v, set key1 v, remove k0, remove key1, increment n 3, snapshot false, snapshot true} from an empty database, and the same after a fixed first phase (both keys and the counter written and persisted by an incremental snapshot); key names of 2 and 4 bytes, values of 1-3 bytes with symbolic printable content; the real snapshot_all_pendding_dbs / storage_data_disk write and the real load_all_dbs / create_db_from_file_name read over the in-memory file system; then restart (the start_db sequence of main.rs) and comparison with the reference map frozen at the last completed snapshot",
+               "thorough": "5 operations"},
+    "outside": "multi-byte UTF-8 content (lengths are concrete byte counts, content is symbolic ASCII); more than one database per history; HashMap iteration orders other than insertion order; fsync / page-cache reordering",
+    "assumptions": ["in-memory file system shim with exact BufWriter capacity / flush / drop semantics", "environment shims"],
+}
